@@ -125,7 +125,7 @@ def _q2_q4(ctx, R):
 
     # classify every matcher call by the branch conditions that lead to it
     n = 0
-    neutralised = set()
+    neutralised = None  # characters neutralised in EVERY glob call
     for c in walk_local(vm.node):
         if not isinstance(c, ast.Call):
             continue
@@ -139,11 +139,13 @@ def _q2_q4(ctx, R):
                     conds.append((norm(p.test), in_body))
             case_sensitive_branch = any(t == "is_case" and b for t, b in conds) or any(t in ("not is_case", "is_case is False") and not b for t, b in conds)
             both_folded = len(c.args) >= 2 and folded(c.args[0]) and folded(c.args[1])
+            here = set()
             for a in c.args[1:2]:
                 for x in ast.walk(a):
                     if isinstance(x, ast.Call) and isinstance(x.func, ast.Attribute) and x.func.attr == "replace" and len(x.args) == 2 \
                             and isinstance(x.args[0], ast.Constant) and x.args[0].value == "[" and isinstance(x.args[1], ast.Constant) and x.args[1].value == "[[]":
-                        neutralised.add("[")
+                        here.add("[")
+            neutralised = here if neutralised is None else (neutralised & here)
             if case_sensitive_branch:
                 if fn in ("fnmatch.fnmatchcase", "fnmatchcase") and not both_folded:
                     R.ok("Q2", "case-sensitive glob uses fnmatchcase", vm.loc(c))
@@ -197,7 +199,7 @@ def _q2_q4(ctx, R):
                 wild = {e.value for e in cm.elts if isinstance(e, ast.Constant)}
     if wild is None:
         raise AnalysisError("anchor vanished: wildcard character set in _is_pattern_absolute")
-    special = FNMATCH_SPECIAL - neutralised
+    special = FNMATCH_SPECIAL - (neutralised or set())
     R.count("Q4 wildcard characters", len(wild))
     if wild == special:
         R.ok("Q4", "wildcards %s == matcher specials %s" % (sorted(wild), sorted(special)), ia.loc())
@@ -436,6 +438,37 @@ def _q5(ctx, R):
     R.floor("yields in raw query generators (Q5)", 80)
 
 
+def _q8(ctx, R):
+    R.rule("Q8", "several patterns give the union: no loop over the patterns is cut short")
+    P = ctx.P
+    n = 0
+    for mod in _modules(P):
+        for f in mod.all_funcs():
+            for lp in walk_local(f.node):
+                if isinstance(lp, ast.For) and norm(lp.iter) == "patterns":
+                    n += 1
+                    cut = None
+                    for st in lp.body:
+                        for x in ast.walk(st):
+                            if isinstance(x, (ast.Break, ast.Return)):
+                                # a break that belongs to an inner loop is that loop's business
+                                owner = None
+                                for p_ in parent_chain(x):
+                                    if isinstance(p_, (ast.For, ast.While)):
+                                        owner = p_
+                                        break
+                                if isinstance(x, ast.Return) or owner is lp:
+                                    cut = x
+                    if cut is not None:
+                        R.bad("Q8", "%s|pattern-loop %s" % (f.key, type(cut).__name__.lower()), f.loc(cut),
+                              "%s leaves the loop over the patterns with `%s` (guard: %s): the remaining patterns are never matched, so the result is not the union and depends on the order of the patterns"
+                              % (f.qualname, short(cut, 30), "; ".join(short(p_.test, 40) for p_ in parent_chain(cut) if isinstance(p_, ast.If))[:90] or "none"))
+                    else:
+                        R.ok("Q8", "%s: every pattern is processed" % f.qualname, f.loc(lp))
+    R.count("loops over the patterns (Q8)", n)
+    R.floor("loops over the patterns (Q8)", 14)
+
+
 @register("C13",
           "Static analysis of the 13 sibling query modules, patterns.py and the lookup service: Q1 argument plumbing at every call "
           "between family members (same-named parameters, lookup element type vs enclosing parent kind); Q2 the matcher's case / regex "
@@ -446,6 +479,7 @@ def _q5(ctx, R):
           "right unfiltered set.")
 def check_c13(ctx, R):
     from .namespace_rules import fallback_scan
+    _q8(ctx, R)
     R.rule("Q7", "independence from the accelerated lookup: the fallback scan covers the five (parent, child) kinds, compares "
                  "value with child[key] and never stops early")
     R.count("fallback scan cells (Q7)", fallback_scan(ctx, R, "Q7"))
